@@ -53,8 +53,25 @@ def build(case):
     return torch.nn.Sequential(*mods), patched
 
 
+def _prior_call_with_overrides():
+    """History lane: an earlier, unrelated call that overrides built-in rules through additional_nonlinear_ops must not
+    influence later calls (the rule table is per call)."""
+    def plain(module, grad_input, grad_output):
+        return grad_input
+    m = torch.nn.Sequential(torch.nn.Flatten(), torch.nn.Linear(8, 2), torch.nn.ReLU(), torch.nn.Linear(2, 1)).double()
+    X = base.encode([0, 1], 4, torch.float64).unsqueeze(0)
+    refs = base.encode([1, 0], 4, torch.float64).unsqueeze(0).unsqueeze(0)
+    ops = {getattr(torch.nn, n): plain for n in ("ReLU", "ReLU6", "LeakyReLU", "PReLU", "RReLU", "Softshrink", "ELU", "Tanh", "Sigmoid", "GELU",
+                                                 "SiLU", "Softplus", "Mish", "SELU", "CELU", "LogSigmoid", "MaxPool1d")}
+    with warnings.catch_warnings():
+        warnings.simplefilter("ignore")
+        deep_lift_shap(m, X, references=refs, additional_nonlinear_ops=ops, device="cpu")
+
+
 def handler(case):
     out = dict(st="ok")
+    if case["id"] % 10 == 1:
+        _prior_call_with_overrides()
     model, patched = build(case)
     try:
         A = case["A"]
